@@ -170,6 +170,31 @@ def extra_designs():
     for n in (1, 2, 3, 5, 8):
         yield (f"det/history/sample-pdk-compiled-many/{n}", sample_compiled_many(n))
 
+    def inexact_arith():
+        # parameter values computed by inexact prefixed arithmetic (depends on the decimal context in force)
+        T = h.Module(name="ArithT")
+        T.a, T.b = h.Signal(), h.Signal()
+        w = (1 * h.prefix.µ) / 3
+        T.r = h.R(r=(10 * h.prefix.K) / 7)(p=T.a, n=T.b)
+        T.c = h.C(c=w * 3)(p=T.a, n=T.b)
+        T.l = h.L(l=(1 * h.prefix.n) / 3 + 1 * h.prefix.p)(p=T.a, n=T.b)
+        return T
+    yield ("det/history/inexact-arithmetic", inexact_arith)
+
+    def wrapped():
+        from hdl21.generators import Wrapper, Series, MosStack
+        Inv = h.Module(name="Inv")
+        Inv.i, Inv.o = h.Input(), h.Output()
+        Inv.r = h.R(r=1)(p=Inv.i, n=Inv.o)
+        T = h.Module(name="WrapT")
+        T.a, T.b, T.c = h.Signals(3)
+        T.w = Wrapper(Inv)(i=T.a, o=T.b)
+        T.s = Series(unit=Inv, conns=("i", "o"), nser=1)(i=T.b, o=T.c)
+        T.s3 = Series(unit=Inv, conns=("i", "o"), nser=3)(i=T.a, o=T.c)
+        T.m = MosStack(unit=h.Nmos(), nser=1)(d=T.a, g=T.b, s=T.c, b=T.c)
+        return T
+    yield ("det/history/wrappers", wrapped)
+
 
 def unrelated_work(rnd, rounds):
     """earlier, unrelated use of the library in this process: exports and netlists of throw-away designs carrying
@@ -202,6 +227,24 @@ def unrelated_work(rnd, rounds):
             pkg = h.to_proto(J)
             import vlsirtools
             vlsirtools.netlist(pkg=pkg, dest=io.StringIO(), fmt="spice")
+        except Exception:
+            pass
+        # numbers with more digits than the decimal context holds, rescaled and added (anything that touches the context)
+        try:
+            big = h.Prefixed(number=D(0.1), prefix=h.Prefix.KILO) + 50 * h.prefix.UNIT
+            (big.scale(h.Prefix.MILLI), big * 3, (7 * h.prefix.n) / 3, h.Prefixed(number=D("1." + "3" * 40), prefix=h.Prefix.MICRO).scale(h.Prefix.NANO))
+        except Exception:
+            pass
+        # generated wrappers over throw-away cells that are NAMED like the design's
+        try:
+            from hdl21.generators import Wrapper, Series, MosStack
+            for nm in ("Inv", "PCell0", "UnitMod"):
+                Jc = h.Module(name=nm)
+                Jc.i, Jc.o = h.Input(), h.Output()
+                Jc.r = h.R(r=rnd.randint(1, 9))(p=Jc.i, n=Jc.o)
+                h.to_proto(Wrapper(Jc))
+                h.to_proto(Series(unit=Jc, conns=("i", "o"), nser=rnd.choice([1, 2])))
+            h.to_proto(MosStack(unit=h.Nmos(), nser=1))
         except Exception:
             pass
         # PDK compiles of designs that are dropped afterwards (many distinct devices: each compile replaces and frees
